@@ -30,13 +30,9 @@ def run_property(pid: str, tier: str, replay: str | None = None) -> int:
                 ]
         return report.finish(program)
     except AnalysisError as e:
-        print(f"ANALYSIS-ERROR property={pid} {e}")
-        report.extra["analysis_error"] = str(e)
-        try:
-            report._write_evidence(program, 0, 0, [str(e)])
-        except Exception:  # noqa: BLE001
-            pass
-        return 2
+        # rules that already ran keep their verdicts; the run as a whole is not a pass
+        report.errors.append(str(e))
+        return report.finish(program)
     except Exception:  # noqa: BLE001
         traceback.print_exc()
         print(f"ANALYSIS-ERROR property={pid} internal error in the analyser (see traceback)")
